@@ -88,6 +88,8 @@ def parse(out):
             cur["pfd"][k] = {int(e.split(":")[0]): e.split(":", 1)[1] for e in v.split(",") if e}
         elif l.startswith("LOG "):
             cur["log"].append(l[4:])
+        elif l.startswith("WINDOW "):
+            cur["window"] = dict(t.split("=", 1) for t in l[7:].split())
         elif l.startswith("ALLOC "):
             cur["alloc"] = [int(x) for x in l[6:].split()]
         elif l.startswith("LEFT "):
@@ -409,10 +411,40 @@ def gen_c08(ctx):
         a, b, c = triple_spec(i, o, e, True)
         for live in ((0, 3) if ctx.tier != "quick" or (i, o, e).count("P") >= 1 else (0,)):
             cases.append(f"in={a} out={b} err={c} det=0 live={live} argv={TRUE}")
+    # "concurrently with spawns on other threads": an unrelated, complete launch is run at the point right after this
+    # launch's k-th pipe() -- exactly what a fork issued there by another thread would inherit (deterministic schedule)
+    for i, o, e in (("P", "P", "P"), ("P", "N", "N"), ("N", "P", "N"), ("N", "N", "P")):
+        npipes = 1 + (i, o, e).count("P")
+        for k in range(1, npipes + 1):
+            cases.append(f"in={i} out={o} err={e} det=0 live=0 argv={TRUE} window={k}")
     return cases
 
 
+def oracle_c08_window(c, viol):
+    w = c.get("window")
+    if not w:
+        viol("the window hook did not run")
+        return
+    parent = dict((int(x.split(":")[0]), x.split(":")[1]) for x in w["parent"].split(",")) if w["parent"] != "-" else {}
+    other = dict((int(x.split(":")[0]), x.split(":")[1]) for x in w["other"].split(",")) if w["other"] != "-" else {}
+    mine = set()
+    for l in c["log"]:
+        m = re.match(r"P pipe -> (\d+) (\d+)", l)
+        if m:
+            for fd in (int(m.group(1)), int(m.group(2))):
+                if fd in parent:
+                    mine.add(parent[fd])
+    leaked = sorted(f"fd {fd}" for fd, ino in other.items() if ino in mine)
+    if leaked:
+        viol(f"a child started by another spawn right after this launch's pipe() number {c['kv']['window']} holds pipe ends of "
+             f"this launch ({', '.join(leaked)}): they are inheritable until the following fcntl / until this launch's fork "
+             f"has closed its child ends", "concurrent-spawn-window")
+
+
 def oracle_c08(c, viol):
+    if "window" in c["kv"]:
+        oracle_c08_window(c, viol)
+        return
     if c["res"][0] != "ok":
         return
     snap = snapshot(c)
